@@ -69,6 +69,8 @@ type RigOpts struct {
 	// Factory, if set, is used instead of a fresh factory for Mode/Queue (several channels of one
 	// factory value, the way a Bootstrap creates all of its channels).
 	Factory netty.ChannelFactory
+	// ID, if non-zero, is the channel id (default: a process-wide counter).
+	ID int64
 }
 
 // Rig is a real channel built around the recording seams.
@@ -170,7 +172,11 @@ func NewRig(o RigOpts) *Rig {
 	if o.Wrap != nil {
 		tr = transport.NewTransport(r.T, o.Wrap[0], o.Wrap[1])
 	}
-	r.Ch = f(atomic.AddInt64(&rigID, 1), ctx, r.PL, tr, r.Ex)
+	chID := o.ID
+	if chID == 0 {
+		chID = atomic.AddInt64(&rigID, 1)
+	}
+	r.Ch = f(chID, ctx, r.PL, tr, r.Ex)
 	if !o.NoHooks {
 		fn := r.S.HookFn()
 		if o.OnPoint != nil {
